@@ -54,6 +54,13 @@ structure Prims (K : Type) where
   atan : K → K
   expOv : K → Bool
   ofNat : Nat → K
+  /-- `np.floor_divide`, `np.remainder`, `np.power`, `np.arctan2` (tabulated by the harness) -/
+  fdiv : K → K → K
+  fmod : K → K → K
+  pow : K → K → K
+  atan2 : K → K → K
+  /-- `np.isnan(x) | np.isinf(x)` -/
+  nonfinite : K → Bool
 
 variable {K : Type} (P : Prims K)
 
@@ -453,15 +460,146 @@ def pickleArr (a : MArr K) : MArr K :=
 
 def pickleObj (x : Obj K) : Obj K := ⟨pickleArr P x.main, x.d.map (pickleArr P)⟩
 
+/-- faithful pickling of an OBJECT (pickler.py): when the object's mask is a partially masked array
+    (`ANTIMASKED` encoding) each derivative is stored under the OBJECT's antimask and comes back with the
+    object's mask - its own mask is dropped and the numbers underneath it are written; otherwise the
+    derivative is pickled as an array of its own -/
+def pickleObjCode (x : Obj K) : Obj K :=
+  let partial_ := x.main.toList.any (·.m) && !(x.main.toList.all (·.m))
+  ⟨pickleArr P x.main, x.d.map fun dx =>
+    if partial_ then zip (fun (c d : Cell K) => if c.m then (⟨P.one, true⟩ : Cell K) else ⟨d.v, false⟩) x.main dx
+    else pickleArr P dx⟩
+
+/-! ### more element-wise operations (phase 3) -/
+
+/-- scalar.py `sign(zeros=False)`: `result[result == 0] = 1` with the MASKED comparison: a masked element
+    is never rewritten -/
+def signNzCode (c : Cell K) : Cell K :=
+  if !c.m && P.eq (P.sign c.v) P.zero then ⟨P.one, false⟩ else ⟨P.sign c.v, c.m⟩
+
+/-- scalar.py:270-295 `frac()`: `values % 1.`, mask kept, derivatives passed through -/
+def fracObj (x : Obj K) : Obj K := ⟨x.main.map (passCode fun v => P.fmod v P.one), x.d⟩
+
+/-- scalar.py `_power_0` … `_power_4` (the easy integer powers) -/
+def pow0Obj (x : Obj K) : Obj K :=
+  ⟨x.main.map fun c => (⟨P.one, c.m⟩ : Cell K), x.d.map fun dx => dx.map fun d => (⟨P.zero, d.m⟩ : Cell K)⟩
+def pow2Obj (x : Obj K) : Obj K :=
+  unaryObj P (fun c => ⟨P.mul c.v c.v, c.m⟩) (fun c => ⟨P.mul c.v (P.ofNat 2), c.m⟩) x
+def pow3Obj (x : Obj K) : Obj K :=
+  unaryObj P (fun c => ⟨P.mul c.v (P.mul c.v c.v), c.m⟩) (fun c => ⟨P.mul (P.ofNat 3) (P.mul c.v c.v), c.m⟩) x
+def pow4Obj (x : Obj K) : Obj K :=
+  unaryObj P (fun c => ⟨P.mul (P.mul c.v c.v) (P.mul c.v c.v), c.m⟩)
+    (fun c => ⟨P.mul (P.mul (P.ofNat 4) (P.mul c.v c.v)) c.v, c.m⟩) x
+
+/-- scalar.py `__pow__`, general exponent `k` (array path: power, then NaN / inf scrubbed to 1 and masked;
+    the 0-D path masks the same elements): one element -/
+def powCode (k : K) (c : Cell K) : Cell K :=
+  let r := P.pow c.v k
+  let bad := P.nonfinite r
+  ⟨if bad then P.one else r, c.m || bad⟩
+
+/-- derivative rule of the general power: `factor = expo * self**(expo-1)`, `factor * deriv` -/
+def powObj (k km1 : K) (x : Obj K) : Obj K :=
+  unaryObj P (powCode P k) (fun c => let q := powCode P km1 c; ⟨P.mul k q.v, q.m⟩) x
+
+/-- qube.py `_floordiv_by_scalar` / `_mod_by_scalar`: divisor zeros replaced by 1 and masked -/
+def fdivCode (a b : Cell K) : Cell K := binCode P.fdiv a (nonZero P b)
+def fmodCode (a b : Cell K) : Cell K := binCode P.fmod a (nonZero P b)
+
+def floordivObj (x y : Obj K) : Except Err (Obj K) :=
+  match bcast x.main.shape y.main.shape with
+  | none => .error .value
+  | some out => .ok ⟨zip (fdivCode P) (x.main.bto out) (y.main.bto out), none⟩
+
+/-- `%` keeps the derivatives of the left operand, broadcast, under their own masks -/
+def modObj (x y : Obj K) : Except Err (Obj K) :=
+  match bcast x.main.shape y.main.shape with
+  | none => .error .value
+  | some out => .ok ⟨zip (fmodCode P) (x.main.bto out) (y.main.bto out), x.d.map (·.bto out)⟩
+
+/-- scalar.py:509-548 `y.arctan2(x)`: `denom_inv = (x.wod**2 + y.wod**2).reciprocal()`,
+    `d = x.wod * denom_inv * dy  -  y.wod * denom_inv * dx` -/
+def arctan2Obj (y x : Obj K) : Except Err (Obj K) :=
+  match bcast y.main.shape x.main.shape with
+  | none => .error .value
+  | some out =>
+    let y := btoObj y out; let x := btoObj x out
+    let sq := fun (c : Cell K) => (⟨P.mul c.v c.v, c.m⟩ : Cell K)
+    let dinv := (zip (binCode P.add) (x.main.map sq) (y.main.map sq)).map (recipCode P)
+    let d1 := y.d.map fun dy => zip (binCode P.mul) (zip (binCode P.mul) x.main dinv) dy
+    let d2 := x.d.map fun dx => zip (binCode P.mul) (zip (binCode P.mul) y.main dinv) dx
+    .ok ⟨zip (binCode P.atan2) y.main x.main, mergeD (zip (binCode P.sub)) (·.map (passCode P.neg)) d1 d2⟩
+
+/-! ### the mask_where family and clip (as on main after 347ed94 / d46d2c8) -/
+
+inductive CmpKind where
+  | lt | le | gt | ge | eq | ne
+  deriving DecidableEq, Repr
+
+def CmpKind.test (k : CmpKind) (v lim : K) : Bool :=
+  match k with
+  | .lt => P.lt v lim | .le => P.le v lim | .gt => P.lt lim v | .ge => P.le lim v
+  | .eq => P.eq v lim | .ne => !P.eq v lim
+
+/-- the selected elements of `mask_where_xx(limit, replace, remask)`: the comparison on the stored value;
+    with remask=False the elements that are masked already do not take part (`_visible`) -/
+def mwSel (k : CmpKind) (lim : K) (remask : Bool) (c : Cell K) : Bool := k.test P c.v lim && (remask || !c.m)
+
+/-- mask_ops.py `mask_where`: selected elements receive the replacement (if any) and are masked iff remask;
+    the derivatives are zeroed there when a replacement is given, and the new mask is or-ed into them -/
+def mwObj (k : CmpKind) (lim : K) (rep : Option K) (remask : Bool) (x : Obj K) : Obj K :=
+  match rep, remask with
+  | none, false => x
+  | _, _ =>
+    ⟨x.main.map fun c => if mwSel P k lim remask c then ⟨rep.getD c.v, remask⟩ else c,
+     x.d.map fun dx => zip (fun (c d : Cell K) =>
+       if mwSel P k lim remask c then (⟨if rep.isSome then P.zero else d.v, remask⟩ : Cell K) else d) x.main dx⟩
+
+/-- mask_ops.py `clip(lower, upper, remask)` with number limits ("easy case"): values clipped, mask or-ed
+    with `outside` iff remask; with remask=False the derivatives are set to an UNMASKED zero where the
+    stored value is outside (`new_deriv[outside] = deriv.zero()`) -/
+def clipObj (lo hi : K) (remask : Bool) (x : Obj K) : Obj K :=
+  let outside := fun (v : K) => P.lt v lo || P.lt hi v
+  let clipv := fun (v : K) => if P.lt v lo then lo else if P.lt hi v then hi else v
+  ⟨x.main.map fun c => ⟨clipv c.v, c.m || (remask && outside c.v)⟩,
+   if remask then x.d
+   else x.d.map fun dx => zip (fun (c d : Cell K) => if outside c.v then (⟨P.zero, false⟩ : Cell K) else d) x.main dx⟩
+
+/-! ### item assignment through a (masked) integer index object on the first axis -/
+
+/-- indexer.py `__setitem__` (as on main after e4a853a): index elements that are masked or out of range
+    touch nothing; the others are written in row-major order of the index (the last write to a slot wins);
+    the assigned element takes the value AND the mask of the right-hand side -/
+def setitemCode (x : MArr K) (idx : MArr Int) (rhs : MArr K) : Except Err (MArr K) :=
+  match x.shape with
+  | [] => .error .index
+  | len :: rest =>
+    match bcast rhs.shape (idx.shape ++ rest) with
+    | none => .error .value
+    | some out =>
+      if out != idx.shape ++ rest then .error .value else
+      let rb := rhs.bto out
+      let hits := fun (k : Nat) => (indices idx.shape).reverse.find? fun j =>
+        let c := idx.get j
+        !c.m && !(c.v ≥ (len : Int) || c.v < -(len : Int)) && (c.v % (len : Int)).toNat == k
+      .ok ⟨x.shape, fun i =>
+        match i with
+        | [] => x.get i
+        | k :: r =>
+          match hits k with
+          | some j => rb.get (j ++ r)
+          | none => x.get i⟩
+
 /-! ### the expression language -/
 
 inductive UOp where
   | neg | abs | sign | sin | cos | tan | arctan | sqrt | log | expC | recip | arcsin | arccos
   | sqrtNc | logNc | exp | recipNz | arcsinNc | arccosNc | wod | pickle
+  | signNz | frac | pow0 | pow2 | pow3 | pow4
   deriving DecidableEq, Repr
 
 inductive BOp where
-  | add | sub | mul | div | stack
+  | add | sub | mul | div | stack | mod | floordiv | arctan2
   deriving DecidableEq, Repr
 
 inductive ROp where
@@ -482,12 +620,16 @@ inductive Expr where
   | sort (axis : Nat) (e : Expr)
   | index (e : Expr) (iv : Nat)
   | shrinkUnshrink (am : Nat) (e : Expr)
+  | powG (ik ikm1 : Nat) (e : Expr)
+  | mw (k : CmpKind) (ilim : Nat) (irep : Option Nat) (remask : Bool) (e : Expr)
+  | clip (ilo ihi : Nat) (remask : Bool) (e : Expr)
   deriving Repr
 
 structure Env (K : Type) where
   objs : List (Obj K)
   idxs : List (MArr Int)
   ams : List (Arr Bool)
+  consts : List K
 
 def emptyObj : Obj K := ⟨⟨[], fun _ => ⟨P.one, true⟩⟩, none⟩
 
@@ -513,7 +655,13 @@ def evalU (op : UOp) (x : Obj K) : Except Err (Obj K) :=
   | .arcsinNc => arcsinFastObj P x
   | .arccosNc => arccosFastObj P x
   | .wod => .ok x.wod
-  | .pickle => .ok (pickleObj P x)
+  | .pickle => .ok (pickleObjCode P x)
+  | .signNz => .ok ⟨x.main.map (signNzCode P), none⟩
+  | .frac => .ok (fracObj P x)
+  | .pow0 => .ok (pow0Obj P x)
+  | .pow2 => .ok (pow2Obj P x)
+  | .pow3 => .ok (pow3Obj P x)
+  | .pow4 => .ok (pow4Obj P x)
 
 def evalB (op : BOp) (x y : Obj K) : Except Err (Obj K) :=
   match op with
@@ -522,6 +670,9 @@ def evalB (op : BOp) (x y : Obj K) : Except Err (Obj K) :=
   | .mul => mulObj P x y
   | .div => divObj P x y
   | .stack => stackObj P x y
+  | .mod => modObj P x y
+  | .floordiv => floordivObj P x y
+  | .arctan2 => arctan2Obj P x y
 
 def evalR (op : ROp) (axes : List Nat) (x : Obj K) : Obj K :=
   match op with
@@ -562,6 +713,18 @@ def eval (env : Env K) : Expr → Except Err (Obj K)
     match eval env e with
     | .error er => .error er
     | .ok x => .ok (shrinkUnshrinkObj P x (env.ams.getD am ⟨[], fun _ => true⟩))
+  | .powG ik ikm1 e =>
+    match eval env e with
+    | .error er => .error er
+    | .ok x => .ok (powObj P (env.consts.getD ik P.one) (env.consts.getD ikm1 P.zero) x)
+  | .mw k ilim irep remask e =>
+    match eval env e with
+    | .error er => .error er
+    | .ok x => .ok (mwObj P k (env.consts.getD ilim P.zero) (irep.map fun i => env.consts.getD i P.zero) remask x)
+  | .clip ilo ihi remask e =>
+    match eval env e with
+    | .error er => .error er
+    | .ok x => .ok (clipObj P (env.consts.getD ilo P.zero) (env.consts.getD ihi P.zero) remask x)
 
 /-- a comparison at the root of a numeric expression -/
 def evalCmp (env : Env K) (op : COp) (e1 e2 : Expr) : Except Err (MArr Bool) :=
@@ -592,6 +755,7 @@ validate first, so a statement that raises leaves the environment unchanged. -/
 inductive Stmt where
   | assign (i : Nat) (e : Expr)
   | query (e : Expr)
+  | setitem (i : Nat) (iv : Nat) (e : Expr)
   deriving Repr
 
 /-- run the statements in order; every statement contributes the outcome it shows (the new value of
@@ -601,6 +765,22 @@ def runStmts (env : Env K) : List Stmt → List (Except Err (Obj K)) × Env K
   | .query e :: rest =>
     let r := eval P env e
     let (out, env') := runStmts env rest
+    (r :: out, env')
+  | .setitem i iv e :: rest =>
+    -- `x_i[idx] = rhs`: values, mask and (when both carry one) the derivative are assigned element by element
+    let x := env.objs.getD i (emptyObj P)
+    let idx := env.idxs.getD iv ⟨[], fun _ => ⟨0, true⟩⟩
+    let r : Except Err (Obj K) :=
+      match eval P env e with
+      | .error er => .error er
+      | .ok rhs =>
+        match setitemCode x.main idx rhs.main with
+        | .error er => .error er
+        | .ok m => .ok ⟨m, none⟩
+    let env1 : Env K := match r with
+      | .ok y => { env with objs := env.objs.set i y }
+      | .error _ => env
+    let (out, env') := runStmts env1 rest
     (r :: out, env')
   | .assign i e :: rest =>
     let r := eval P env e
